@@ -8,21 +8,39 @@ CONSTANTS Configs,        \* set of [noise, exp, login, K]
           Msgs,           \* device message alphabet (records with field k)
           MaxChunk,       \* frames per chunk
           UseCalls, UseSubs,
-          GenMode         \* TRUE: behaviours may stop anywhere at rest and print their schedule
+          GenMode,        \* TRUE: behaviours may stop anywhere at rest and print their schedule
+          StartConnected, \* TRUE: behaviours start from a freshly connected session (InitConnected)
+          Grid,           \* > 0: while idle, time may also advance in steps of Grid up to the next deadline
+          TrackKA,        \* TRUE: maintain the keep-alive history (C10 slice)
+          SubKinds        \* kinds user subscriptions may be registered for
 
 VARIABLES e,            \* [n, f] events and faults used so far
-          hist          \* generation only: the schedule so far (hidden by VIEW)
-mcvars == <<s, e, hist>>
-mcview == <<s, e>>
-H(tok) == hist' = Append(hist, tok)
+          hist,         \* generation only: the schedule so far (hidden by VIEW)
+          ev,           \* the event / callback that produced the current state
+          ka            \* keep-alive history (C10): [mst, sp, lm, dat]
+mcvars == <<s, e, hist, ev, ka>>
+mcview == <<s, e, ev, ka>>
+HK(tok) == /\ hist' = (IF GenMode THEN Append(hist, tok) ELSE hist) /\ ev' = tok
+H(tok) == HK(tok) /\ UNCHANGED ka
+
+None == 0 - 1
+KA0 == [mst |-> FALSE, sp |-> None, lm |-> 0, dat |-> None]
+Range(f) == {f[i] : i \in DOMAIN f}
+\* a chunk that carries at least one valid message is a sign of life
+KAChunk(ms) == IF TrackKA /\ \E i \in 1..Len(ms) : Known(ms[i])
+               THEN [ka EXCEPT !.mst = TRUE, !.sp = None, !.lm = s.now] ELSE ka
+KATick(y) == IF ~TrackKA THEN ka
+             ELSE [ka EXCEPT !.mst = FALSE,
+                             !.sp = IF "PingRequest" \in Range(y.w) /\ ka.sp = None THEN s.now ELSE @]
+KADeath == IF TrackKA THEN [ka EXCEPT !.dat = s.now] ELSE ka
 
 Use(fault) == /\ ~e.stop /\ e.n < MaxEnv /\ (fault => e.f < MaxFaults)
               /\ e' = [e EXCEPT !.n = e.n + 1, !.f = IF fault THEN e.f + 1 ELSE e.f]
 
 Chunks == UNION {[1..k -> Msgs] : k \in 1..MaxChunk}
 
-MCInit == /\ \E c \in Configs : s = InitState(c)
-          /\ e = [n |-> 0, f |-> 0, stop |-> FALSE] /\ hist = <<>>
+MCInit == /\ \E c \in Configs : s = (IF StartConnected THEN InitConnected(c) ELSE InitState(c))
+          /\ e = [n |-> 0, f |-> 0, stop |-> FALSE] /\ hist = <<>> /\ ev = <<"init">> /\ ka = KA0
 
 Env ==
   \/ s.st.out = "idle" /\ Use(FALSE) /\ s' = UserStart(s) /\ H(<<"start">>)
@@ -35,7 +53,7 @@ Env ==
   \/ s.cfg.noise /\ s.fh = "made" /\ ~s.cm /\ s.tr = "open" /\ Use(FALSE) /\ s' = EnvHandshake(s, "ok") /\ H(<<"handshake", "ok">>)
   \/ s.cfg.noise /\ s.fh = "made" /\ ~s.cm /\ s.tr = "open" /\ Use(TRUE)
        /\ \E cls \in {"BadNameAPIError", "InvalidEncryptionKeyAPIError", "HandshakeAPIError"} : s' = EnvHandshake(s, cls) /\ H(<<"handshake", cls>>)
-  \/ CanReceive(s) /\ Use(FALSE) /\ \E ms \in Chunks : s' = EnvChunk(s, ms) /\ H(<<"chunk", ms>>)
+  \/ CanReceive(s) /\ Use(FALSE) /\ \E ms \in Chunks : s' = EnvChunk(s, ms) /\ HK(<<"chunk", ms>>) /\ ka' = KAChunk(ms)
   \/ s.tr = "open" /\ ~s.cm /\ Use(TRUE) /\ s' = EnvEof(s) /\ H(<<"eof">>)
   \/ s.tr = "open" /\ ~s.cm /\ Use(TRUE) /\ s' = EnvReset(s) /\ H(<<"reset">>)
   \/ s.tr = "open" /\ ~s.cm /\ ~s.cfg.noise /\ Use(TRUE)
@@ -46,25 +64,27 @@ Env ==
   \/ UseCalls /\ s.cs # "init" /\ Use(FALSE)
        /\ \E id \in UserCalls, mode \in {"single", "list", "filter"} :
             /\ s.cout[id] = "idle" /\ (id = "c1" \/ s.cout["c1"] # "idle")
-            /\ \E key \in {1, 2} : s' = UserCall(s, id, mode, key) /\ H(<<"call", id, mode, key>>)
+            /\ \E key \in {1} : s' = UserCall(s, id, mode, key) /\ H(<<"call", id, mode, key>>)
   \/ UseCalls /\ Use(TRUE) /\ \E id \in UserCalls : s.calls[id].st = "pending" /\ s' = CancelCall(s, id) /\ H(<<"cancel_call", id>>)
   \/ UseSubs /\ s.cs = "connected" /\ Use(FALSE)
-       /\ \E id \in 1..2, script \in {"none", "unsub_self", "unsub_other", "sub_new"} :
+       /\ \E id \in 1..3, kind \in SubKinds, script \in {"none", "unsub_self", "unsub_other", "sub_new"} :
             /\ ~\E u \in s.subs : u.id = id
-            /\ (script = "none" \/ \A u \in s.subs : u.script = "none")
-            /\ s' = UserSub(s, id, "A", script) /\ H(<<"sub", id, "A", script>>)
+            /\ (id = 1 \/ \E u \in s.subs : u.id = id - 1)
+            /\ (script = "none" \/ (kind # "*" /\ \A u \in s.subs : u.script = "none"))
+            /\ s' = UserSub(s, id, kind, script) /\ H(<<"sub", id, kind, script>>)
+  \/ UseSubs /\ Use(FALSE) /\ \E u \in s.subs : u.script = "none" /\ s' = UserUnsub(s, u.id) /\ H(<<"unsub", u.id>>)
 
 Internal ==
-  /\ ~e.stop /\ UNCHANGED e /\ H(<<"i">>)
-  /\ \/ StartStepEnabled(s) /\ s' = StartStep(s)
-     \/ FinishStepEnabled(s) /\ s' = FinishStep(s)
-     \/ FinishStepAltEnabled(s) /\ s' = FinishStepAlt(s)
-     \/ DiscStepEnabled(s) /\ s' = DiscStep(s)
-     \/ \E id \in UserCalls : CallStepEnabled(s, id) /\ s' = CallStep(s, id)
-     \/ s.cm /\ s' = ConnMade(s)
-     \/ s.lost # "none" /\ s' = ConnLost(s)
-     \/ Due(s, "ping") /\ s' = PingFire(s)
-     \/ Due(s, "pong") /\ s' = PongFire(s)
+  /\ ~e.stop /\ UNCHANGED e
+  /\ \/ StartStepEnabled(s) /\ s' = StartStep(s) /\ H(<<"i">>)
+     \/ FinishStepEnabled(s) /\ s' = FinishStep(s) /\ H(<<"i">>)
+     \/ DiscStepEnabled(s) /\ s' = DiscStep(s) /\ H(<<"i">>)
+     \/ \E id \in UserCalls : CallStepEnabled(s, id) /\ s' = CallStep(s, id) /\ H(<<"i">>)
+     \/ \E id \in CallIds : CallTimerFireEnabled(s, id) /\ s' = CallTimerFire(s, id) /\ H(<<"i">>)
+     \/ s.cm /\ s' = ConnMade(s) /\ H(<<"i">>)
+     \/ s.lost # "none" /\ s' = ConnLost(s) /\ H(<<"i">>)
+     \/ Due(s, "ping") /\ s' = PingFire(s) /\ HK(<<"i", "ping">>) /\ ka' = KATick(PingFire(s))
+     \/ Due(s, "pong") /\ s' = PongFire(s) /\ HK(<<"i", "pong">>) /\ ka' = KADeath
 
 \* the loop is idle and nothing is due: virtual time jumps to the next deadline
 AdvanceTime ==
@@ -72,12 +92,18 @@ AdvanceTime ==
   /\ Quiescent(s) /\ s.tm # {} /\ NothingDue(s)
   /\ s' = [Begin(s) EXCEPT !.now = NextDeadline(s)]
 
+\* while idle, time passes in grid steps (messages may arrive between two deadlines)
+EnvWait ==
+  /\ Grid > 0 /\ ~e.stop /\ UNCHANGED e /\ H(<<"w", Grid>>)
+  /\ Quiescent(s) /\ NothingDue(s) /\ s.tm # {} /\ s.now + Grid <= NextDeadline(s)
+  /\ s' = [Begin(s) EXCEPT !.now = s.now + Grid]
+
 \* generation: the story ends here; print its schedule
 Stop == /\ GenMode /\ ~e.stop /\ Len(hist) >= 4 /\ Quiescent(s) /\ NothingDue(s)
-        /\ e' = [e EXCEPT !.stop = TRUE] /\ UNCHANGED <<s, hist>>
+        /\ e' = [e EXCEPT !.stop = TRUE] /\ UNCHANGED <<s, hist, ev, ka>>
         /\ PrintT(<<"SCHED", ToJson(<<s.cfg, hist>>)>>)
 
-MCNext == Env \/ Internal \/ AdvanceTime \/ Stop
+MCNext == Env \/ Internal \/ AdvanceTime \/ EnvWait \/ Stop
 MCSpec == MCInit /\ [][MCNext]_mcvars
 
 \* every operation eventually ends once the environment stops (C09, "never hangs")
@@ -87,10 +113,96 @@ NoOpPending == s.st.out # "pending" /\ s.fi.out # "pending" /\ s.di.out # "pendi
                /\ \A i \in UserCalls : s.cout[i] # "pending"
 EventuallySettled == <>[]NoOpPending
 
+
+\* ------------------------------------------------------------ C06
+HelloMsgs6 == {[k |-> "hello", major |-> mj, name |-> nm] : mj \in {2, 3}, nm \in {"dev", "oth", ""}}
+                \cup {[k |-> "connect", invalid |-> FALSE], [k |-> "connect", invalid |-> TRUE]}
+
+\* ------------------------------------------------------------ C10
+K == (CHOOSE c \in Configs : TRUE).K           \* keep-alive slices use one K
+PongT == (K * 9) \div 2
+\* a ping is written at a tick exactly when no message arrived since the previous tick
+PingIffIdle == [][(ev'[1] = "i" /\ Len(ev') = 2 /\ ev'[2] = "ping" /\ s'.cs = "connected")
+                    => (("PingRequest" \in Range(s'.w)) <=> ~ka.mst)]_mcvars
+\* death exactly 4.5 K after the first ping that was followed by total silence
+DeathExact == [][(ev'[1] = "i" /\ Len(ev') = 2 /\ ev'[2] = "pong")
+                    => (ka.sp # None /\ s.now = ka.sp + PongT /\ s'.cs = "closed"
+                        /\ s'.fatal = "PingFailedAPIError" /\ s'.stops = <<FALSE>>)]_mcvars
+\* never later: a session that is still up has not outlived its deadline
+NoLateDeath == (TrackKA /\ s.cs = "connected" /\ ka.sp # None) => s.now <= ka.sp + PongT
+\* never while the peer talks: the pong timer exists only after a silent ping
+PongTimerOnlyAfterSilentPing == TrackKA => (HasTimer(s, "pong") <=> (ka.sp # None /\ s.cs = "connected"))
+PongTimerExact == (TrackKA /\ HasTimer(s, "pong")) => TimerAt(s, "pong") = ka.sp + PongT
+\* hence: silent since t  =>  dead within (t + 5.5 K, t + 6.5 K]
+\* (closed on the left only for the tie: the last message and a tick due at the same instant, message first)
+DeathWindow == (TrackKA /\ ka.dat # None) => (2 * (ka.dat - ka.lm) >= 11 * K /\ 2 * (ka.dat - ka.lm) <= 13 * K)
+SilentPeerDropped == (TrackKA /\ s.cs = "connected") => 2 * (s.now - ka.lm) <= 13 * K
+KAMsgs == {[k |-> "pingresp"], [k |-> "A", key |-> 1], [k |-> "unknown"]}
+KAConfigs == {[noise |-> FALSE, exp |-> "none", login |-> FALSE, K |-> 20, hist |-> FALSE]}
+KAHorizon == s.now <= 10 * K
+
+\* ------------------------------------------------------------ C11
+CallConfigs == {[noise |-> FALSE, exp |-> "none", login |-> FALSE, K |-> 20, hist |-> TRUE]}
+CallMsgs == {[k |-> "A", key |-> 1], [k |-> "A", key |-> 2], [k |-> "B"], [k |-> "done"]}
+CallConfigsNoHist == {[noise |-> FALSE, exp |-> "none", login |-> FALSE, K |-> 20, hist |-> FALSE]}
+CallMsgsBig == CallMsgs \cup {[k |-> "unknown"], [k |-> "discreq"]}
+
+\* ------------------------------------------------------------ C12
+DispConfigs == {[noise |-> FALSE, exp |-> "none", login |-> FALSE, K |-> 20, hist |-> FALSE]}
+DispMsgs == {[k |-> "A", key |-> 1], [k |-> "B"], [k |-> "unknown"], [k |-> "garbage"], [k |-> "pingreq"],
+             [k |-> "timereq"], [k |-> "discreq"]}
+Closing(m) == m.k \in {"garbage", "discreq"}
+\* frames of a chunk are handled up to and including the first one that closes the connection
+ProcLen(ms) == IF \E i \in 1..Len(ms) : Closing(ms[i])
+               THEN CHOOSE i \in 1..Len(ms) : Closing(ms[i]) /\ \A j \in 1..i - 1 : ~Closing(ms[j])
+               ELSE Len(ms)
+KindMatch(u, k) == u.kind = k \/ u.kind = "*"
+Scripted(x) == {u \in x.subs : u.script # "none"}
+\* is subscriber v registered when the j-th frame of the chunk is dispatched ?  (closed form:
+\* at most one scripted subscriber u; its script runs at the first frame it receives)
+FirstFor(u, ms, n) == IF \E j \in 1..n : Known(ms[j]) /\ KindMatch(u, ms[j].k)
+                      THEN CHOOSE j \in 1..n : Known(ms[j]) /\ KindMatch(u, ms[j].k) /\ \A i \in 1..j - 1 : ~(Known(ms[i]) /\ KindMatch(u, ms[i].k))
+                      ELSE 0
+RegisteredAt(x, v, j, ms, n) ==
+  IF Scripted(x) = {} THEN v \in x.subs
+  ELSE LET u == CHOOSE w \in Scripted(x) : TRUE
+           f == FirstFor(u, ms, n)
+       IN IF v.id = u.id THEN (u.script = "unsub_self" /\ f # 0) => j <= f
+          ELSE IF v \in x.subs THEN (u.script = "unsub_other" /\ v.kind = u.kind /\ f # 0) => j <= f
+          ELSE \* the subscriber created by sub_new
+               u.script = "sub_new" /\ v.id = u.id + 10 /\ f # 0 /\ j > f
+Candidates(x) == x.subs \cup {[id |-> u.id + 10, kind |-> u.kind, script |-> "none"] : u \in {w \in Scripted(x) : w.script = "sub_new"}}
+RECURSIVE ExpDeliv(_, _, _, _, _)
+ExpDeliv(x, ms, n, j, acc) ==
+  IF j > n THEN acc
+  ELSE IF ~Known(ms[j]) THEN ExpDeliv(x, ms, n, j + 1, acc)
+  ELSE LET R == {v \in Candidates(x) : KindMatch(v, ms[j].k) /\ RegisteredAt(x, v, j, ms, n)}
+           RECURSIVE Ord(_, _)
+           Ord(S, a) == IF S = {} THEN a ELSE LET v == CHOOSE w \in S : \A z \in S : w.id <= z.id IN Ord(S \ {v}, Append(a, <<v.id, ms[j].k>>))
+       IN ExpDeliv(x, ms, n, j + 1, Ord(R, acc))
+RECURSIVE ExpReplies(_, _, _, _)
+ExpReplies(ms, n, j, acc) ==
+  IF j > n THEN acc
+  ELSE ExpReplies(ms, n, j + 1,
+         CASE ms[j].k = "pingreq" -> Append(acc, "PingResponse")
+           [] ms[j].k = "timereq" -> Append(acc, "GetTimeResponse")
+           [] ms[j].k = "discreq" -> Append(acc, "DisconnectResponse")
+           [] OTHER -> acc)
+IsChunkStep == ev'[1] = "chunk" /\ CanReceive(s) /\ s.cs = "connected" /\ ~s.wf
+DispatchExact == [][IsChunkStep =>
+   LET ms == ev'[2] n == ProcLen(ms) IN
+     /\ s'.d = ExpDeliv(s, ms, n, 1, <<>>)                      \* once each, arrival order, handlers at that moment
+     /\ s'.w = ExpReplies(ms, n, 1, <<>>)                       \* peer requests answered
+     /\ (\A i \in 1..Len(ms) : ms[i].k = "unknown") => s' = Begin(s)     \* undefined ids: no effect at all
+     /\ (ms[n].k = "garbage") => (s'.cs = "closed" /\ s'.fatal = "ProtocolAPIError" /\ s'.stops = <<FALSE>>)
+     /\ (ms[n].k = "discreq") => (s'.cs = "closed" /\ s'.stops = <<TRUE>>)
+     /\ (~Closing(ms[n])) => s'.cs = "connected"]_mcvars
+
 Horizon == s.now <= 400
 
-ConnectConfigs == {[noise |-> FALSE, exp |-> "dev", login |-> TRUE, K |-> 20],
-                   [noise |-> TRUE, exp |-> "none", login |-> FALSE, K |-> 20]}
+ConnectConfigs == {[noise |-> FALSE, exp |-> "dev", login |-> TRUE, K |-> 20, hist |-> FALSE],
+                   [noise |-> TRUE, exp |-> "none", login |-> FALSE, K |-> 20, hist |-> FALSE]}
+AllConfigs == {[noise |-> n, exp |-> x, login |-> l, K |-> 20, hist |-> FALSE] : n \in BOOLEAN, x \in {"none", "dev"}, l \in BOOLEAN}
 ConnectMsgs == {[k |-> "hello", major |-> 1, name |-> "dev"], [k |-> "hello", major |-> 3, name |-> "dev"],
                 [k |-> "hello", major |-> 1, name |-> "oth"], [k |-> "hello", major |-> 1, name |-> ""],
                 [k |-> "connect", invalid |-> FALSE], [k |-> "connect", invalid |-> TRUE],
